@@ -127,6 +127,31 @@ def ctl_minify_other_dst(rw):
     rw.in_func("minify.go", r"\(m \*M\) Writer\(", "m.Minify(mediatype, w, pr)", "m.Minify(mediatype, pw, pr)")
 
 
+def reader_close_with_error_direct(rw):
+    # io.PipeWriter.Close is CloseWithError(nil)
+    rw.in_func("minify.go", r"\(m \*M\) Reader\(", "\t\tif err := m.Minify(mediatype, pw, r); err != nil {\n\t\t\tpw.CloseWithError(err)\n\t\t} else {\n\t\t\tpw.Close()\n\t\t}\n",
+               "\t\tpw.CloseWithError(m.Minify(mediatype, pw, r))\n")
+
+
+def writer_store_err_direct(rw):
+    rw.in_func("minify.go", r"\(m \*M\) Writer\(", "\t\tif err := m.Minify(mediatype, w, pr); err != nil {\n\t\t\tz.err = err\n\t\t}\n", "\t\tz.err = m.Minify(mediatype, w, pr)\n")
+
+
+def rw_close_early_return(rw):
+    rw.in_func("minify.go", r"\(w \*responseWriter\) Close\(", "\tif closer, ok := w.z.(interface{ Close() error }); ok {\n\t\treturn closer.Close()\n\t}\n\treturn nil\n",
+               "\tcloser, ok := w.z.(io.Closer)\n\tif !ok {\n\t\treturn nil\n\t}\n\treturn closer.Close()\n")
+
+
+def ctl_reader_close_with_error_nil(rw):
+    rw.in_func("minify.go", r"\(m \*M\) Reader\(", "\t\tif err := m.Minify(mediatype, pw, r); err != nil {\n\t\t\tpw.CloseWithError(err)\n\t\t} else {\n\t\t\tpw.Close()\n\t\t}\n",
+               "\t\tm.Minify(mediatype, pw, r)\n\t\tpw.CloseWithError(nil)\n")
+
+
+def ctl_rw_close_wrong_polarity(rw):
+    rw.in_func("minify.go", r"\(w \*responseWriter\) Close\(", "\tif closer, ok := w.z.(interface{ Close() error }); ok {\n\t\treturn closer.Close()\n\t}\n\treturn nil\n",
+               "\tcloser, ok := w.z.(io.Closer)\n\tif ok {\n\t\treturn nil\n\t}\n\treturn closer.Close()\n")
+
+
 T = ["c12_skel"]
 REWRITES = [
     R("c12-pipe-vars-renamed", T, "invariant", "rename-local", "Writer/Reader: pr, pw renamed", pipe_vars_renamed, tests=["."]),
@@ -155,4 +180,9 @@ REWRITES = [
     R("c12-ctl-close-prefers-close-err", T, "changes", "control", "writer.Close returns the pipe's close error before the minifier's", ctl_close_prefers_close_err),
     R("c12-ctl-reader-other-source", T, "changes", "control", "xml Minify wraps the reader before NewInput", ctl_reader_other_source),
     R("c12-ctl-minify-other-dst", T, "changes", "control", "Writer goroutine minifies into the pipe instead of the caller's writer", ctl_minify_other_dst),
+    R("c12-reader-close-with-error-direct", T, "invariant", "equivalent-form", "Reader goroutine: pw.CloseWithError(m.Minify(…)) (Close is CloseWithError(nil); harmless H5-r2)", reader_close_with_error_direct, tests=["."]),
+    R("c12-writer-store-err-direct", T, "invariant", "equivalent-form", "Writer goroutine: z.err = m.Minify(…) (harmless H5-r2)", writer_store_err_direct, tests=["."]),
+    R("c12-rw-close-early-return", T, "invariant", "equivalent-form", "responseWriter.Close: io.Closer assertion with an early return (harmless H5-r2)", rw_close_early_return, tests=["."]),
+    R("c12-ctl-reader-close-with-error-nil", T, "changes", "control", "Reader goroutine drops the error and closes with CloseWithError(nil)", ctl_reader_close_with_error_nil),
+    R("c12-ctl-rw-close-wrong-polarity", T, "changes", "control", "responseWriter.Close: early return with the wrong polarity", ctl_rw_close_wrong_polarity),
 ]
